@@ -9,13 +9,13 @@ use super::lex::{concretise_src, tokens_json};
 
 const SINGLE: &[&str] = &[
     "x", "y", "s", "r", "e", "n", "i", "t", "a", "X", "S", "A", "1", "0", "5", ".", ",", " ", " ", " ", "\n", "\n", "'", "\"",
-    "(", ")", "-", "+", "*", "/", "_", "<", ">", "=", "&", "!", "?", ";", ":", "\t", "\r", "~", "^", "%", "$", "@", "`", "#", "|", "\\",
+    "(", ")", "-", "+", "*", "/", "_", "<", ">", "=", "&", "!", "?", ";", ":", "\t", "\r", "~", "^", "%", "$", "@", "`", "#", "|", "\\", "\u{c}",
 ];
 const FRAGS: &[&str] = &[
     "say ", "put ", " into ", "let ", " be ", "if ", "else", "while ", "'s ", "'re ", "'n'", "it's ", "ain't ", "\"a\nb\"", "\"x\"'s",
     "(c)", "(c\nd)'re", "1.5", ".5", "5.", "1e5", "1.2.3", "ab1", "_x", "is ", "isn't", "the ", "My ", "Tom Sawyer ", "~clair ",
     "^mile's ", "%'s", "$'re", "@", "1@", "`", "#", "|", " , ", ". ", "\n\n", "<=", ">= ", "rock'n'roll", "x''' ", "a's's",
-    "says hi \"there", "(open", "\"open\n", "takes ", "taking ", "mysterious", "MYSTERIOUS", "%nock ", "nothing",
+    "says hi \"there", "(open", "\"open\n", "takes ", "taking ", "mysterious", "MYSTERIOUS", "%nock ", "nothing", "\"C:\\\"", "(\\)", "\\\"",
 ];
 
 pub fn gen_text(rng: &mut StdRng, maxlen: usize) -> String {
